@@ -1,5 +1,5 @@
 """Per-property job lists (bounds per tier) and the texts that go into the evidence."""
-from props_front import POOL, c09_shapes
+from props_front import POOL, c09_shapes, c09_opaque_jobs
 import props_pipe
 import props_time
 import props_list
@@ -81,7 +81,7 @@ def jobs_c09(tier, seed):
         for i, sh in enumerate(shapes):
             lab = ' '.join((a['kind'][0] + str(a['sep_len']) + (f"e{a['eq_l']}{a['eq_r']}v{a['val_len']}" if a['kind'] != 'bare' else '')) for a in sh['attrs'])
             jobs.append(dict(harness='c09_grammar', params=dict(sh, ds=ds, de=de), label=f'tag {ds!r} pad{sh["pad_l"]} [{lab}]'))
-    return jobs
+    return jobs + c09_opaque_jobs(tier)
 
 
 def jobs_c10(tier, seed):
@@ -118,6 +118,8 @@ def jobs_pipe(prop):
         jobs = props_pipe.struct_jobs(prop, tier, seed)
         if prop in ('C04', 'C01'):
             jobs += props_pipe.junk_jobs(prop, tier, seed)
+        if prop == 'C04':
+            jobs += props_pipe.pending_cfg_jobs(tier)
         return jobs
     return f
 
@@ -143,10 +145,11 @@ PROPS = {
                     'README-style delimiters (holes may contain delimiter characters), symbolic delimiters.',
         assumptions=COMMON_ASSUME),
     'C09': dict(
-        jobs=jobs_c09, tv=('front',),
+        jobs=jobs_c09, tv=('front', 'pipe'),
         explanation='tokenize + element_parser::parse on tags generated from the grammar: the shape (number/kind of attributes, padding) is '
                     'enumerated, every name / value / separator / quote byte is symbolic (separators range over blank and line break, values '
-                    'over every UTF-8 string without the closing quote and the end delimiter); z3 decides name and attribute spans.',
+                    'over every UTF-8 string without the closing quote and the end delimiter); z3 decides name and attribute spans. Second half: clean on ready / pending '
+                    'elements carrying c="v" with v any 4 (thorough: 1..6) bytes: the removal decision and strategy do not depend on v (the solver can spell skip / unwrap-block / name).',
         assumptions=COMMON_ASSUME + ['names exclude blank, tab, CR, LF, =, quotes, / and the first byte of either delimiter']),
     'C10': dict(
         jobs=jobs_c10, tv=('front',),
